@@ -115,6 +115,12 @@ func c05Run(c *Ctx) {
 				c.Do("pair", c05Pair{x, y})
 			}
 		}
+		// every small node, built in every way, cloned at pointer level
+		for i, x := range all {
+			for mode := 0; mode < heapBuildModes; mode++ {
+				c.Do("heap-clone", heapCloneCase{X: x, Build: mode, Salt: i})
+			}
+		}
 	}
 }
 
